@@ -4,6 +4,8 @@ From Coq Require Import List Arith Bool NArith.
 From GV Require Import Base.Result Gen.TokenTypes Gen.Defs Gen.Instr Model.Parser Model.BuilderWL Model.Compile
   Spec.Depth Proofs.C05.Known Proofs.C05.Bounded Proofs.C06.Known Proofs.C06.DepthSound Proofs.C06.Dynamic
   Proofs.C06.Bounded Proofs.C06.Bounded7 Proofs.C06.Refuted Proofs.C06.Balanced Proofs.C06.BalancedBounded.
+From GV Require Spec.Pratt.
+From GV Require Import Proofs.C06.OperatorBalanced Proofs.Builder.Transport.
 Import ListNotations.
 
 Lemma C06_static_triples_bounded_3_proof : forall a b c init, In init inits -> built_typable [a; b; c] init.
@@ -49,3 +51,31 @@ Proof. intros toks Hl Ha. exact (check_bal_meaning _ (reduced_check_bal toks Hl 
 Lemma C06_balanced_covers_small_bounded_7_proof : forall toks,
   length toks = 7 -> (forall x, In x toks -> In x small_alphabet) -> accepted_balanced toks.
 Proof. intros toks Hl Ha. exact (check_bal_meaning _ (small_check_bal toks Hl Ha)). Qed.
+
+Lemma C06_balanced_operator_expressions_proof : forall toks R, Pratt.pratt toks = Some R ->
+  exists root nodes t,
+    parse toks = Ok (root, nodes) /\ Compile.tree_of nodes root = Some t /\
+    (~ Known_C06_K1 t -> ~ Known_C06_K3 t -> ~ Known_C06_K4 t ->
+     balanced t = true /\
+     forall init lit fuel r, build nodes init lit fuel root = Ok r ->
+       let p := prog_of_build init r in
+       exists d, typed p d /\ ends_at_one p d /\ exists e, pjump p (snd r) = Some e /\ d e = Some (0, 0)).
+Proof.
+  intros toks R H. destruct (operator_expression_balanced toks R H) as (root & nodes & t & Hp & Ht & _ & Hb).
+  exists root, nodes, t. split; [exact Hp|]. split; [exact Ht|]. intros H1 H3 H4.
+  unfold Known_C06_K1, Known_C06_K3, Known_C06_K4 in *.
+  assert (Hbal : balanced t = true).
+  { apply Hb.
+    - destruct (has_chain_no_else t); [exfalso; apply H1; reflexivity | reflexivity].
+    - destruct (has_chain_early_else t); [exfalso; apply H4; reflexivity | reflexivity].
+    - destruct (has_reapply_pending t); [exfalso; apply H3; reflexivity | reflexivity]. }
+  split; [exact Hbal|]. intros init lit fuel r Hbd.
+  exact (C06_static_full_builder_proof nodes root t init lit fuel r Ht Hbal Hbd).
+Qed.
+
+Lemma C06_operator_expressions_no_K2_proof : forall toks R, Pratt.pratt toks = Some R ->
+  exists root nodes t, parse toks = Ok (root, nodes) /\ Compile.tree_of nodes root = Some t /\ drops_arms t = false.
+Proof.
+  intros toks R H. destruct (operator_expression_balanced toks R H) as (root & nodes & t & Hp & Ht & Hd & _).
+  exists root, nodes, t. auto.
+Qed.
